@@ -142,8 +142,30 @@ def probe_pg_listing(repo):
     raise RuntimeError("pg-listing probe: unrecognised behaviour: " + (p.stdout + p.stderr)[-400:])
 
 
+def check_gate(repo):
+    """The model's gate is `negb (adel r)`: a truthiness test of entity.allow_delete at the top of Workspace.remove_entity
+    (values read back from a file are numpy int8, so an identity / equality test is another function)."""
+    src = (Path(repo) / "geoh5py/workspace/workspace.py").read_text()
+    for node in ast.walk(ast.parse(src)):
+        if isinstance(node, ast.ClassDef) and node.name == "Workspace":
+            for f in node.body:
+                if isinstance(f, ast.FunctionDef) and f.name == "remove_entity":
+                    gates = [x for x in ast.walk(f) if isinstance(x, ast.If) and "allow_delete" in ast.unparse(x.test)]
+                    if len(gates) != 1:
+                        raise RuntimeError(f"Workspace.remove_entity: expected one allow_delete gate, found {len(gates)}")
+                    test = ast.unparse(gates[0].test).replace(" ", "")
+                    if test != "notentity.allow_delete":
+                        raise RuntimeError(f"Workspace.remove_entity: gate `{ast.unparse(gates[0].test)}` is not the truthiness test "
+                                           "`not entity.allow_delete` that the model transcribes")
+                    if not any(isinstance(x, ast.Raise) for x in gates[0].body):
+                        raise RuntimeError("Workspace.remove_entity: the allow_delete gate does not raise")
+                    return "not entity.allow_delete"
+    raise RuntimeError("Workspace.remove_entity not found")
+
+
 def regenerate(repo):
     cfg = read_cfg(repo)
+    gate = check_gate(repo)
     cfg["pg_list_ok"] = probe_pg_listing(repo)
     text = (
         "(* generated by tools/props/c05.py from the loop headers of Workspace.remove_recursively and\n"
@@ -155,7 +177,7 @@ def regenerate(repo):
     GEN.parent.mkdir(exist_ok=True)
     if not GEN.exists() or GEN.read_text() != text:
         GEN.write_text(text)
-    return {"tables": {"loop_headers": cfg}}
+    return {"tables": {"loop_headers": cfg, "allow_delete_gate": gate}}
 
 
 # ----------------------------------------------------------------------------- spec shadow (property text), used by generator and oracle
@@ -250,6 +272,10 @@ class Spec:
             self.remove(op["e"], False)
         elif t == "remove_parent":
             self.remove(op["e"], True)
+        elif t == "remove_parent_many":
+            for e in op["es"]:
+                if self.attached(e):
+                    self.remove(e, True)
         elif t == "lookup":
             return "any"
         return "ok"
@@ -322,6 +348,7 @@ def random_history(rng):
                 k = _pick(rng, [1, 1, 1, 2, 2, 3])
                 emit({"op": "pg_new", "o": o, "ds": rng.sample(ds, min(k, len(ds)))})
     # mutation phase
+    halted = False
     for _ in range(rng.range(3, 14)):
         ents = [k for k in sp.kind if k != 0 and sp.attached(k)]
         if not ents:
@@ -331,9 +358,20 @@ def random_history(rng):
             cand = ents if rng.chance(60) else ([k for k in ents if sp.kind[k] == "data"] or ents)
             e = _pick(rng, cand)
             if emit({"op": "remove_ws", "e": e}) == "protected":
+                halted = True
                 break  # refused half-way (protected descendant): the text does not say what the state is; stop here
-        elif r < 52:
+        elif r < 46:
             emit({"op": "remove_parent", "e": _pick(rng, ents)})
+        elif r < 52:
+            # several children of one parent in one call (mixed kinds under a group)
+            parents = [p for p in sp.kind if sp.attached(p) and sp.kind[p] in ("group", "object")
+                       and len([c for c in sp.children[p] if sp.attached(c)]) >= 2]
+            if parents:
+                p = _pick(rng, parents)
+                kids = [c for c in sp.children[p] if sp.attached(c)]
+                emit({"op": "remove_parent_many", "es": rng.sample(kids, rng.range(2, min(3, len(kids))))})
+            else:
+                emit({"op": "remove_parent", "e": _pick(rng, ents)})
         elif r < 60:
             cand = [k for k in ents if sp.kind[k] != "pg"]
             if cand:
@@ -359,6 +397,10 @@ def random_history(rng):
                     emit({"op": "pg_new", "o": o, "ds": rng.sample(sp.children[o], min(len(sp.children[o]), rng.range(1, 3)))})
         else:
             emit({"op": "group", "p": _pick(rng, att("group"))})
+    if not halted and rng.chance(30):  # leave something protected: the driver asks for its removal again after close + re-open
+        cand = [k for k in sp.kind if k != 0 and sp.attached(k) and sp.kind[k] != "pg" and sp.adel[k]]
+        if cand:
+            emit({"op": "allow_delete", "e": _pick(rng, cand), "val": False})
     tail = rng.below(4)
     if tail >= 1:
         emit({"op": "drop"})
@@ -493,6 +535,8 @@ class _Run:
             ws.remove_entity(tab[op["e"]])
         elif t == "remove_parent":
             tab[op["e"]].parent.remove_children([tab[op["e"]]])
+        elif t == "remove_parent_many":
+            tab[op["es"][0]].parent.remove_children([tab[e] for e in op["es"]])
         elif t == "drop":
             import gc
 
@@ -749,6 +793,27 @@ def drive_one(case, work):
         res["held"] = sorted(run.tab)
         ws2 = Workspace(run.path)
         res["reopened"] = _reopen_view(run, ws2)
+        # entities left protected: ask the RE-OPENED workspace to remove them (the flag is now what the reader delivers)
+        prot = []
+        protected = {}
+        for op in case["ops"]:
+            if op["op"] == "allow_delete":
+                protected[op["e"]] = not op["val"]
+        inv = {k: u for u, k in run.uid2ord.items()}
+        for k in sorted(k for k, v in protected.items() if v):
+            ent = ws2.get_entity(inv[k])[0]
+            if ent is None:
+                continue
+            try:
+                ws2.remove_entity(ent)
+                refused = False
+            except UserWarning:
+                refused = True
+            except Exception as e:  # noqa: BLE001
+                refused = f"{type(e).__name__}"
+            del ent
+            prot.append([k, refused, _reopen_view(run, ws2) != res["reopened"]])
+        res["protected_reopen"] = prot
         copies = []
         objs = sorted((run.ordof(o.uid), o) for o in ws2.objects if isinstance(o, ObjectBase))
         for k, o in objs:
@@ -791,6 +856,8 @@ def _op_term(op):
         return f"ORemoveWs {cnat(op['e'])}"
     if t == "remove_parent":
         return f"ORemoveParent {cnat(op['e'])}"
+    if t == "remove_parent_many":
+        return f"ORemoveParentMany {clist(cnat(e) for e in op['es'])}"
     if t == "drop":
         return "ODrop"
     if t == "list":
@@ -1006,7 +1073,7 @@ def oracle(case, obs):
     for i, (op, o) in enumerate(zip(case["ops"], obs["per_op"])):
         t = op["op"]
         # signature bookkeeping before the spec changes
-        if t in ("remove_ws", "remove_parent") and sp.kind.get(op["e"]) == "data":
+        if t in ("remove_ws", "remove_parent") and sp.kind.get(op.get("e")) == "data":
             ob = sp.parent[op["e"]]
             # the implementation's list may already hold stale members from an earlier occurrence: use the observed list
             cur = None
@@ -1092,6 +1159,11 @@ def oracle(case, obs):
         dang = any(d in sp.removed for _, _, pgs in obs["reopened"] for _, m in pgs for d in m)
         add("pg-lists-removed-data" if dang and "pg-lists-removed-data" in seen else "reopen-differs",
             f"after re-open: {obs['reopened']} expected {want_rows}")
+    for k, refused, changed in obs.get("protected_reopen", []):
+        if refused is not True:
+            add("allow-delete-ignored-after-reopen", f"after re-open, removal of protected entity {k} was not refused ({refused})")
+        elif changed:
+            add("refused-changed-state", f"after re-open, the refused removal of {k} changed the tree")
     for k, ok, err in obs["copies"]:
         if not ok:
             row = [r for r in obs["reopened"] if r[0] == k]
